@@ -135,6 +135,8 @@ def _coerce(v, dt):
     """Value as stored into an array of dtype dt."""
     k = dt.kind
     if k == 'f':
+        if isinstance(v, SymReal) and v.tag in core.NARROW and dt.name == 'float64':
+            return SymReal(v.e, 'np.float64')           # widening a float32 value is exact
         if isinstance(v, (SymReal, SymFP, SymBits)):
             return v
         if isinstance(v, (SymInt, SymBool)):
@@ -790,6 +792,11 @@ def _elementwise(a, b, fn, rdtype=None):
     if b is None or a is None:
         raise TypeError("unsupported operand type(s): 'NoneType'")
     dt = rdtype or _result_dtype(a, b)
+    # an array operand's dtype beats a NumPy scalar's: a float64 array op np.float32 scalar is float64
+    if isinstance(a, ndarray) and isinstance(b, SymReal) and b.tag in core.NARROW and a.dtype.name == 'float64':
+        b = SymReal(b.e, 'np.float64')
+    if isinstance(b, ndarray) and isinstance(a, SymReal) and a.tag in core.NARROW and b.dtype.name == 'float64':
+        a = SymReal(a.e, 'np.float64')
     if isinstance(a, ndarray) and isinstance(b, ndarray):
         if a.shape == b.shape:
             return ndarray._new([fn(x, y) for x, y in zip(a._flat(), b._flat())], a.shape, dt)
